@@ -94,6 +94,11 @@ def run(tier, seed, mutant=None, only_validate=False):
         # intervals given as strings (convert_interval): seconds, hours, whole days
         cfgs += [{"kind": "rate_limit", "interval": i, "cons": ["future"], "max_elems": 3} for i in ("2s", "1d", "36h")]
         cfgs += [{"kind": "rate_limit", "interval": 2, "cons": [c], "max_elems": ne, "faults": True} for c in ("future", "coro")]
+        # gaps: time passes while nothing at all is pending, then a burst (every gap length up to 2.5 intervals, twice)
+        for i in ((2, 3) if tier == "quick" else (1, 2, 3, 4)):
+            gaps = ["e1 s d s " + "w " * g + "e1 e1 s" for g in range(1, 2 * i + 2)]
+            gaps += ["e1 s d s " + "w " * g + "e1 s d s " + "w " * h + "e1 e1" for g in range(1, 2 * i + 2) for h in (1, i, i + 1)]
+            cfgs.append({"kind": "rate_limit", "interval": i, "cons": ["future"], "max_elems": ne, "idle_wait": True, "schedules": gaps})
         amod.node_engine(res, work, node="rate_limit", trace_module="AsyncRateLimitTrace", cfgs=cfgs,
                          consts_of=lambda c: dict(NE=ne, Interval=amod.seconds(c["interval"]), SyncCons=c["cons"][0] == "sync",
                                                   MaxTime=100000000, Retain=True, Faults=bool(c.get("faults"))),
